@@ -289,3 +289,48 @@ def _on_segment(x, y, a, b):
         return False
     return (min(a[0], b[0]) <= x <= max(a[0], b[0])
             and min(a[1], b[1]) <= y <= max(a[1], b[1]))
+
+
+# ------------------------------------------------------------ Hilbert reference
+def _xy2d(p, x, y):
+    """Classical Hilbert curve (starts at (0,0), ends at (2^p-1, 0)): cell -> distance."""
+    n = 1 << p
+    d = 0
+    s = n >> 1
+    while s > 0:
+        rx = 1 if (x & s) else 0
+        ry = 1 if (y & s) else 0
+        d += s * s * ((3 * rx) ^ ry)
+        if ry == 0:
+            if rx == 1:
+                x = n - 1 - x
+                y = n - 1 - y
+            x, y = y, x
+        s >>= 1
+    return d
+
+
+def _cell(mid, lo, hi, n):
+    if hi == lo:
+        hi = lo + 1.0                      # zero extent is widened by one
+    if mid != mid:                         # NaN (no extent): the library's cast clips to cell 0
+        return 0
+    c = (mid - lo) * (n / (hi - lo))
+    c = int(c)                             # truncation, like astype(int64)
+    return 0 if c < 0 else (n - 1 if c > n - 1 else c)
+
+
+def hilbert_reference(kind, values, total_bounds, p):
+    """Independent reference for hilbert_distance: the curve position of the cell, in the
+    2^p x 2^p grid spanning total_bounds, that holds the centre of each element's bounding
+    box (missing / empty elements -> cell (0, 0)).  Same float64 operations, in the same
+    order, as the library's scaling, so results must agree exactly."""
+    x0, y0, x1, y1 = (float(v) for v in total_bounds)
+    n = 1 << p
+    out = []
+    for v in values:
+        b = tight_bounds(kind, v)
+        mx = (b[0] + b[2]) / 2.0
+        my = (b[1] + b[3]) / 2.0
+        out.append(_xy2d(p, _cell(mx, x0, x1, n), _cell(my, y0, y1, n)))
+    return out
